@@ -945,6 +945,41 @@ func levelOpsOracle(env *OracleEnv, dn davNames, method string) ([]string, bool)
 	return nil, false
 }
 
+// isTrimmedPrefix: v is strings.TrimSuffix(<Handler>.Prefix, "/"), directly or
+// as the value every return of a module helper yields.
+func isTrimmedPrefix(v ssa.Value, depth int) bool {
+	call, ok := v.(*ssa.Call)
+	if !ok || depth > 3 {
+		return false
+	}
+	if calleeName(call.Common()) == "strings.TrimSuffix" {
+		if s, isC := constString(call.Common().Args[1]); isC && s == "/" {
+			if ld, isLd := call.Common().Args[0].(*ssa.UnOp); isLd {
+				if f2, isFA := ld.X.(*ssa.FieldAddr); isFA && fieldName(f2.X.Type(), f2.Field) == "Prefix" {
+					return true
+				}
+			}
+		}
+		return false
+	}
+	f := call.Common().StaticCallee()
+	if f == nil || len(f.Blocks) == 0 || !inLib(f) {
+		return false
+	}
+	nret := 0
+	for _, b := range f.Blocks {
+		ret, isRet := b.Instrs[len(b.Instrs)-1].(*ssa.Return)
+		if !isRet {
+			continue
+		}
+		nret++
+		if len(ret.Results) != 1 || !isTrimmedPrefix(ret.Results[0], depth+1) {
+			return false
+		}
+	}
+	return nret > 0
+}
+
 // c12PrefixTrim: every adapter literal gets TrimSuffix(h.Prefix, "/").
 func c12PrefixTrim(c *Ctx, pr *PropertyRun) {
 	p := c.P
@@ -966,16 +1001,7 @@ func c12PrefixTrim(c *Ctx, pr *PropertyRun) {
 					return
 				}
 				r.Role("adapter-literal")
-				ok = false
-				if call, isCall := st.Val.(*ssa.Call); isCall && calleeName(call.Common()) == "strings.TrimSuffix" {
-					if s, isC := constString(call.Common().Args[1]); isC && s == "/" {
-						if ld, isLd := call.Common().Args[0].(*ssa.UnOp); isLd {
-							if f2, isFA := ld.X.(*ssa.FieldAddr); isFA && fieldName(f2.X.Type(), f2.Field) == "Prefix" {
-								ok = true
-							}
-						}
-					}
-				}
+				ok = isTrimmedPrefix(st.Val, 0)
 				r.Ob(ok)
 				if !ok {
 					r.Violation("prefix-not-trimmed|"+fnKey(fn), p.instrPos(st), fnKey(fn)+" builds a backend adapter whose Prefix is not strings.TrimSuffix(h.Prefix, \"/\"): with a trailing-slash prefix every path is classified one level off", nil)
